@@ -1,6 +1,8 @@
 package main
 
 import (
+	"io"
+	"errors"
 	"encoding/json"
 	"fmt"
 
@@ -141,12 +143,26 @@ func c17Gen(r *Rand, tier string, emit func(op any)) {
 	}
 }
 
+type c17FailSink struct{}
+
+func (c17FailSink) Write([]byte) (int, error) { return 0, errors.New("disk full") }
+func (c17FailSink) Sync() error               { return errors.New("sync failed") }
+
 func c17Exec(raw json.RawMessage) Result {
 	var op c17Op
 	unmarshal(raw, &op)
 	lvl := zap.NewAtomicLevelAt(zapcore.InfoLevel)
 	core, logs := observer.New(lvl)
-	w := &zapio.Writer{Log: zap.New(core), Level: zapcore.InfoLevel}
+	var logger *zap.Logger
+	if len(op.Steps)%2 == 1 {
+		// the logger behind the writer has a second destination whose every write FAILS, registered first: the lines must
+		// reach the healthy core all the same and Write keeps reporting all bytes consumed
+		broken := zapcore.NewCore(zapcore.NewJSONEncoder(zapcore.EncoderConfig{MessageKey: "m"}), c17FailSink{}, lvl)
+		logger = zap.New(zapcore.NewTee(broken, core), zap.ErrorOutput(zapcore.AddSync(io.Discard)))
+	} else {
+		logger = zap.New(core)
+	}
+	w := &zapio.Writer{Log: logger, Level: zapcore.InfoLevel}
 
 	rets := []int{}
 	errs := []bool{}
